@@ -239,6 +239,11 @@ def backtrackVec (minima : List (Nat × α)) : Nat → Nat → Option (List (Nat
         | some l => some ((prev, pos) :: l)
         | none => none
 
+/-- the `(row, cost)` vector the model's own `smawk` computes for a fragment list (what the hook
+    records from the real run): the driver compares the costs bit for bit -/
+def ownMinimaVec (pen : Penalties) (frs : List (Frag α)) (lws : List α) : Option (List (Nat × α)) :=
+  onlineColumnMinima (costClosure pen lws frs (prefixWidths frs)) 0 (prefixWidths frs).length
+
 /-- `wrap_optimal_fit`, self-contained (its own `smawk`). -/
 def wrapOptimalFit {β : Type} (m : β → Frag α) (pen : Penalties) (frs : List β) (lws : List α) :
     OfResult β × List Nat :=
